@@ -22,6 +22,29 @@ def grammar_tables(repo: Path):
     def nt(name, *args):
         return ("nt", name, tuple(args))
 
+    # action code may build a node directly (`RawExpr::Call{…}`) or through a constructor function of src/ast.rs
+    # (`RawExpr::call(…)`): `built(action, "RawExpr")` gives the variant that is built, either way, and the constructor's body
+    ast_path = repo / "src/ast.rs"
+    ast_src = strip_comments(ast_path.read_text()) if ast_path.exists() else ""
+
+    def built(action, ty):
+        mm_ = re.search(ty + r"\s*:\s*:\s*(\w+)", action)
+        if not mm_:
+            return None, action
+        name_ = mm_.group(1)
+        if name_[0].isupper():
+            return name_, action
+        for im in re.finditer(r"\bimpl\s+" + ty + r"\s*\{", ast_src):
+            blk = ast_src[im.end() - 1:balanced(ast_src, im.end() - 1, "{", "}")]
+            try:
+                body_ = fn_body(blk, name_, "grammar_actions")
+            except ExtractError:
+                continue
+            m2 = re.search(ty + r"::([A-Z]\w*)", body_)
+            if m2:
+                return m2.group(1), body_
+        return None, action
+
     # the tier macro: M<Op, Next> = Next | M<Op, Next> Op Next  (left-recursive, one operator between two operands)
     tier_macros = []
     for name, (params, inline, alts) in G.rules.items():
@@ -94,11 +117,11 @@ def grammar_tables(repo: Path):
         if syms and syms[0] == nt(cur):
             if len(syms) < 2 or syms[1][0] != "lit":
                 raise ExtractError("postfix", f"{cur}: a postfix form does not start with a token")
-            mm = re.search(r"RawExpr\s*:\s*:\s*(\w+)", action)
-            if not mm:
+            kind_, where_ = built(action, "RawExpr")
+            if not kind_:
                 raise ExtractError("postfix", f"{cur}: a postfix form does not build a RawExpr")
-            tp = re.search(r"type_prop\s*:\s*true", action) is not None
-            postfix.append((syms[1][1], mm.group(1) + ("T" if tp else "")))
+            tp = re.search(r"type_prop\s*:\s*true", where_) is not None
+            postfix.append((syms[1][1], kind_ + ("T" if tp else "")))
         elif len(syms) == 1 and syms[0][0] == "nt":
             atoms += 1
         else:
@@ -111,7 +134,7 @@ def grammar_tables(repo: Path):
         if params:
             continue
         for syms, action in G.alts(name, keep=(M,)):
-            if "OpAssign" not in action:
+            if "OpAssign" not in action and built(action, "Stmt")[0] != "OpAssign":
                 continue
             if len(syms) != 3 or syms[0][0] != "nt" or syms[2] != syms[0]:
                 raise ExtractError("assign_ops", f"{name}: op-assignment is not `Expr op Expr`")
@@ -288,9 +311,41 @@ def error_tables(repo: Path):
         v["wrapper"] = any(t == "Box<Error>" for _, t in v["fields"])
         if v["display"] is not None:
             parts = split_top(v["display"])
-            v["template"] = rust_str_literal(parts[0])
-            v["args"] = [" ".join(a.split()) for a in parts[1:] if a.strip()]
-            if v["template"].count("{}") != len(v["args"]) or "{{" in v["template"] or re.search(r"\{[^}]", v["template"]):
+            tmpl = rust_str_literal(parts[0])
+            raw_args = [" ".join(a.split()) for a in parts[1:] if a.strip()]
+            # `{}` / `{0}` / `{name}` with positional, named (`name = expr`) or captured arguments all say the same thing: bring
+            # the template to the form "`{}` per argument, arguments in order of occurrence"
+            pos, named = [], {}
+            for a in raw_args:
+                nm = re.match(r"([A-Za-z_]\w*)\s*=\s*(?!=)(.*)\Z", a, re.S)
+                if nm:
+                    named[nm.group(1)] = nm.group(2).strip()
+                else:
+                    pos.append(a)
+            if "{{" in tmpl or "}}" in tmpl:
+                raise ExtractError("errors", f"{v['name']}: escaped braces in a display template")
+            args, nxt = [], 0
+
+            def repl(m_):
+                nonlocal nxt
+                key = m_.group(1)
+                if key == "":
+                    if nxt >= len(pos):
+                        raise ExtractError("errors", f"{v['name']}: template/argument mismatch")
+                    args.append(pos[nxt])
+                    nxt += 1
+                elif key.isdigit():
+                    if int(key) >= len(pos):
+                        raise ExtractError("errors", f"{v['name']}: template/argument mismatch")
+                    args.append(pos[int(key)])
+                elif re.fullmatch(r"[A-Za-z_]\w*", key):
+                    args.append(named.get(key, key))
+                else:
+                    raise ExtractError("errors", f"{v['name']}: unsupported placeholder {{{key}}}")
+                return "{}"
+            v["template"] = re.sub(r"\{([^{}:]*)\}", repl, tmpl)
+            v["args"] = args
+            if "{" in v["template"].replace("{}", ""):
                 raise ExtractError("errors", f"{v['name']}: template/argument mismatch or unsupported placeholder")
     def table(fname, file, tname):
         body = fn_body(strip_comments((repo / file).read_text()), fname, tname)
@@ -821,6 +876,7 @@ def panic_tables(repo: Path):
         # drop string literals and attributes (their brackets are not indexing)
         text = re.sub(r'"(?:[^"\\\n]|\\.)*"', '""', text)
         text = re.sub(r"#!?\[[^\n]*\]", "", text)
+        text = re.sub(r"\s*\n\s*\.", ".", text)          # a method chain broken over lines is one chain (`.try_lock()` / `.unwrap()`)
         cur = "<top>"
         for line in text.split("\n"):
             m = re.search(r"\bfn\s+(\w+)", line)
